@@ -460,10 +460,12 @@ static std::string pristine_registry_shape() {
   std::string out;
   char buf[512];
   ssize_t k;
+  g_waiting_for_grandchild++;
   while ((k = read(pfd[0], buf, sizeof buf)) > 0) out.append(buf, k);
   close(pfd[0]);
   int st;
   waitpid(pid, &st, 0);
+  g_waiting_for_grandchild--;
   return out;
 }
 
